@@ -1,12 +1,325 @@
 /- Helper lemmas for C13: fragmented I/O and I/O errors. -/
 import Preflate.Model.IO
+import Preflate.Proofs.IOBase
+import Preflate.Proofs.IOMid
 namespace Preflate.Proofs
 open Preflate
+
+-- ---------------------------------------------------------------------------------------------
+-- one chunk
+
+/-- the raw one-byte probe on a non-empty source -/
+theorem read1_cons (tag : Nat) (bs : Bytes) (sched : List IoEv) (hz : IoEv.zero ∉ sched) :
+    (∃ s1, Source.read ⟨tag :: bs, sched⟩ 1 = (.ok [tag], s1) ∧ s1.data = bs ∧ s1.sched <:+ sched) ∨
+    (∃ e s1, Source.read ⟨tag :: bs, sched⟩ 1 = (.error e, s1) ∧ s1.sched <:+ sched ∧ ¬ OnlyShort sched) := by
+  cases sched with
+  | nil => exact .inl ⟨_, rfl, rfl, List.suffix_refl _⟩
+  | cons e rest =>
+    cases e with
+    | short k =>
+      have hm : min (max k 1) 1 = 1 := by omega
+      refine .inl ⟨⟨bs, rest⟩, ?_, rfl, List.suffix_cons _ _⟩
+      simp only [Source.read, hm, List.take_succ_cons, List.take_zero, List.drop_succ_cons, List.drop_zero]
+    | interrupted =>
+      exact .inr ⟨_, _, rfl, List.suffix_cons _ _, not_onlyShort_cons (by intro k; simp)⟩
+    | error =>
+      exact .inr ⟨_, _, rfl, List.suffix_cons _ _, not_onlyShort_cons (by intro k; simp)⟩
+    | zero => simp at hz
+
+/-- the raw one-byte probe on an exhausted source -/
+theorem read1_nil (sched : List IoEv) (hz : IoEv.zero ∉ sched) :
+    (∃ s1, Source.read ⟨[], sched⟩ 1 = (.ok [], s1) ∧ s1.data = [] ∧ s1.sched <:+ sched) ∨
+    (∃ e s1, Source.read ⟨[], sched⟩ 1 = (.error e, s1) ∧ s1.sched <:+ sched ∧ ¬ OnlyShort sched) := by
+  cases sched with
+  | nil => exact .inl ⟨_, rfl, rfl, List.suffix_refl _⟩
+  | cons e rest =>
+    cases e with
+    | short k => exact .inl ⟨⟨[], rest⟩, by simp [Source.read], rfl, List.suffix_cons _ _⟩
+    | interrupted =>
+      exact .inr ⟨_, _, rfl, List.suffix_cons _ _, not_onlyShort_cons (by intro k; simp)⟩
+    | error =>
+      exact .inr ⟨_, _, rfl, List.suffix_cons _ _, not_onlyShort_cons (by intro k; simp)⟩
+    | zero => simp at hz
+
+/-- the part of `readChunkIO` for tags 1 and 2 after the optional IDAT header (same code) -/
+def chunkTailIO (o : Oracle) (crc : Bytes → Nat) (idat : Option IdatContents) (s : Source) (k : Sink) :
+    R Bool × Source × Sink :=
+  match readStreamIO s with
+  | (.ok (plain, corr), s) =>
+      match o.recompress plain corr with
+      | .ok back =>
+          match idat with
+          | some c =>
+              match recreateIdatIO crc c back k with
+              | (.ok (), k) => (.ok true, s, k)
+              | (.error e, k) => (.error e, s, k)
+          | none =>
+              match writeAll back k with
+              | (.ok (), k) => (.ok true, s, k)
+              | (.error e, k) => (.error e, s, k)
+      | .error e => (.error e, s, k)
+  | (.error e, s) => (.error e, s, k)
+
+theorem full_of_snk {s s' : Source} {k k' : Sink} {r : R Unit} {outB rest : Bytes}
+    (hs : s'.sched <:+ s.sched) (hd : s'.data = rest) (h : SnkPost k k' r outB) :
+    ((r = .ok () ∧ FullPost s s' k k' (.ok true : R Bool) true rest outB) ∨
+     (r = .error .err ∧ FullPost s s' k k' (.error .err : R Bool) true rest outB)) := by
+  obtain ⟨hk, hc⟩ := h
+  rcases hc with ⟨rfl, ho⟩ | ⟨rfl, hb, p, hp, ho⟩
+  · exact .inl ⟨rfl, hs, hk, .inl ⟨rfl, hd, ho⟩⟩
+  · exact .inr ⟨rfl, hs, hk, .inr ⟨rfl, fun hh => hb hh.2, p, hp, ho⟩⟩
+
+theorem chunkTailIO_spec (o : Oracle) (crc : Bytes → Nat) (idat : Option IdatContents) (s : Source) (k : Sink)
+    (pl cl : Nat) (plain corr bs1 bs2 bs3 bs4 back outB : Bytes)
+    (h1 : getVarint s.data = .ok (pl, bs1)) (h2 : takeExact pl bs1 = .ok (plain, bs2))
+    (h3 : getVarint bs2 = .ok (cl, bs3)) (h4 : takeExact cl bs3 = .ok (corr, bs4))
+    (hrec : o.recompress plain corr = .ok back)
+    (hsome : ∀ c, idat = some c → recreateIdat crc c back = .ok outB)
+    (hnone : idat = none → outB = back)
+    (hz : IoEv.zero ∉ s.sched) :
+    ∃ r s' k', chunkTailIO o crc idat s k = (r, s', k') ∧ FullPost s s' k k' r true bs4 outB := by
+  unfold chunkTailIO
+  obtain ⟨r1, s1, e1, hs1, c1⟩ := readStreamIO_spec s pl cl plain corr bs1 bs2 bs3 bs4 h1 h2 h3 h4 hz
+  rw [e1]
+  rcases c1 with ⟨rfl, hd1⟩ | ⟨rfl, hb1⟩
+  · simp only [hrec]
+    cases idat with
+    | some c =>
+      simp only []
+      obtain ⟨r2, k2, e2, h2'⟩ := recreateIdatIO_spec crc c back k outB (hsome c rfl)
+      rw [e2]
+      rcases full_of_snk (s := s) hs1 hd1 h2' with ⟨rfl, hf⟩ | ⟨rfl, hf⟩
+      · exact ⟨_, _, _, rfl, hf⟩
+      · exact ⟨_, _, _, rfl, hf⟩
+    | none =>
+      simp only []
+      obtain ⟨r2, k2, e2, h2'⟩ := writeAll_spec back k
+      rw [← hnone rfl] at h2'
+      rw [e2]
+      rcases full_of_snk (s := s) hs1 hd1 h2' with ⟨rfl, hf⟩ | ⟨rfl, hf⟩
+      · exact ⟨_, _, _, rfl, hf⟩
+      · exact ⟨_, _, _, rfl, hf⟩
+  · exact ⟨_, _, _, rfl, hs1, List.suffix_refl _,
+      .inr ⟨rfl, fun hh => hb1 hh.1, [], List.nil_prefix, by simp⟩⟩
+
+def ocFlag : Option (Bytes × Bytes) → Bool
+  | none => false
+  | some _ => true
+
+def ocOut : Option (Bytes × Bytes) → Bytes
+  | none => []
+  | some (out, _) => out
+
+def ocRest : Option (Bytes × Bytes) → Bytes
+  | none => []
+  | some (_, rest) => rest
+
+theorem readChunkIO_spec (o : Oracle) (crc : Bytes → Nat) (s : Source) (k : Sink)
+    (oc : Option (Bytes × Bytes)) (h : readChunk o crc s.data = .ok oc) (hz : IoEv.zero ∉ s.sched) :
+    ∃ r s' k', readChunkIO o crc s k = (r, s', k') ∧
+      FullPost s s' k k' r (ocFlag oc) (ocRest oc) (ocOut oc) := by
+  obtain ⟨data, sched⟩ := s
+  simp only at h hz
+  cases data with
+  | nil =>
+    simp only [readChunk, Except.ok.injEq] at h
+    subst h
+    unfold readChunkIO
+    rcases read1_nil sched hz with ⟨s1, e0, hd0, hs0⟩ | ⟨e, s1, e0, hs0, hb0⟩
+    · rw [e0]
+      exact ⟨_, _, _, rfl, hs0, List.suffix_refl _, .inl ⟨rfl, hd0, by simp [ocOut]⟩⟩
+    · rw [e0]
+      exact ⟨_, _, _, rfl, hs0, List.suffix_refl _,
+        .inr ⟨rfl, fun hh => hb0 hh.1, [], List.nil_prefix, by simp⟩⟩
+  | cons tag bs =>
+    simp only [readChunk] at h
+    unfold readChunkIO
+    rcases read1_cons tag bs sched hz with ⟨s1, e0, hd0, hs0⟩ | ⟨e, s1, e0, hs0, hb0⟩
+    rotate_left
+    · rw [e0]
+      exact ⟨_, _, _, rfl, hs0, List.suffix_refl _,
+        .inr ⟨rfl, fun hh => hb0 hh.1, [], List.nil_prefix, by simp⟩⟩
+    rw [e0]
+    simp only []
+    have hz1 : IoEv.zero ∉ s1.sched := nozero_of_suffix hs0 hz
+    by_cases ht0 : tag = 0
+    · simp only [if_pos ht0] at h ⊢
+      obtain ⟨⟨n, b1⟩, hg, h⟩ := bind_ok h
+      simp only [] at h
+      obtain ⟨⟨d, b2⟩, ht, h⟩ := bind_ok h
+      simp only [Except.ok.injEq] at h
+      subst h
+      obtain ⟨hl, rfl, rfl⟩ := takeExact_ok ht
+      obtain ⟨r1, s2, e1, hs1, c1⟩ := getVarintIO_spec s1 n b1 (by rw [hd0]; exact hg) hz1
+      rw [e1]
+      rcases c1 with ⟨rfl, hd1⟩ | ⟨rfl, hb1⟩
+      rotate_left
+      · exact ⟨_, _, _, rfl, hs1.trans hs0, List.suffix_refl _,
+          .inr ⟨rfl, fun hh => bad_of_suffix hs0 hb1 hh.1, [], List.nil_prefix, by simp⟩⟩
+      simp only []
+      obtain ⟨r2, s3, k3, e2, hs2, hk2, c2⟩ := copyLiteral_spec (n + 1) n s2 k (by rw [hd1]; exact hl)
+        (nozero_of_suffix hs1 hz1) (by omega)
+      rw [e2]
+      rcases c2 with ⟨rfl, hd2, ho2⟩ | ⟨rfl, hb2, p, hp, ho2⟩
+      · refine ⟨_, _, _, rfl, (hs2.trans hs1).trans hs0, hk2, .inl ⟨rfl, ?_, ?_⟩⟩
+        · simp only [ocRest]; rw [hd2, hd1]
+        · simp only [ocOut]; rw [ho2, hd1]
+      · refine ⟨_, _, _, rfl, (hs2.trans hs1).trans hs0, hk2, .inr ⟨rfl, ?_, p, ?_, ho2⟩⟩
+        · intro hh
+          exact hb2 ⟨onlyShort_of_suffix (hs1.trans hs0) hh.1, hh.2⟩
+        · simp only [ocOut]; rw [← hd1]; exact hp
+    · simp only [if_neg ht0] at h ⊢
+      by_cases ht12 : tag = 1 ∨ tag = 2
+      rotate_left
+      · simp only [if_neg ht12] at h
+        cases h
+      simp only [if_pos ht12] at h ⊢
+      obtain ⟨⟨idat, bI⟩, hI, h⟩ := bind_ok h
+      simp only [] at h
+      obtain ⟨⟨pl, b1⟩, hg1, h⟩ := bind_ok h
+      simp only [] at h
+      obtain ⟨⟨plain, b2⟩, hg2, h⟩ := bind_ok h
+      simp only [] at h
+      obtain ⟨⟨cl, b3⟩, hg3, h⟩ := bind_ok h
+      simp only [] at h
+      obtain ⟨⟨corr, b4⟩, hg4, h⟩ := bind_ok h
+      simp only [] at h
+      obtain ⟨back, hrec, h⟩ := bind_ok h
+      -- the optional IDAT header
+      have key : ∀ (s2 : Source), s2.sched <:+ s1.sched → s2.data = bI →
+          ∃ r s' k', chunkTailIO o crc idat s2 k = (r, s', k') ∧
+            FullPost ⟨tag :: bs, sched⟩ s' k k' r (ocFlag oc) (ocRest oc) (ocOut oc) := by
+        intro s2 hs2 hd2
+        have hoc : ∃ outB, oc = some (outB, b4) ∧
+            (∀ c, idat = some c → recreateIdat crc c back = .ok outB) ∧ (idat = none → outB = back) := by
+          cases idat with
+          | some c =>
+            simp only [] at h
+            obtain ⟨outB, ho, h⟩ := bind_ok h
+            simp only [Except.ok.injEq] at h
+            refine ⟨outB, h.symm, ?_, fun hh => by cases hh⟩
+            intro c' hc'
+            cases hc'
+            exact ho
+          | none =>
+            simp only [Except.ok.injEq] at h
+            exact ⟨back, h.symm, fun c hh => (by cases hh), fun _ => rfl⟩
+        obtain ⟨outB, rfl, hsome, hnone⟩ := hoc
+        obtain ⟨r, s', k', e, hs, hk, hc⟩ := chunkTailIO_spec o crc idat s2 k pl cl plain corr b1 b2 b3 b4
+          back outB (by rw [hd2]; exact hg1) hg2 hg3 hg4 hrec hsome hnone (nozero_of_suffix hs2 hz1)
+        refine ⟨r, s', k', e, (hs.trans hs2).trans hs0, hk, ?_⟩
+        rcases hc with hc | ⟨rfl, hb, hp⟩
+        · exact .inl hc
+        · exact .inr ⟨rfl, fun hh => hb ⟨onlyShort_of_suffix (hs2.trans hs0) hh.1, hh.2⟩, hp⟩
+      by_cases ht2 : tag = 2
+      · simp only [if_pos ht2] at hI ⊢
+        obtain ⟨⟨c, bc⟩, hrc, hI⟩ := bind_ok hI
+        simp only [pure, Except.pure, Except.ok.injEq, Prod.mk.injEq] at hI
+        obtain ⟨rfl, rfl⟩ := hI
+        obtain ⟨r1, s2, e1, hs1, c1⟩ := readIdatContentsIO_spec s1 c bc (by rw [hd0]; exact hrc) hz1
+        rw [e1]
+        rcases c1 with ⟨rfl, hd1⟩ | ⟨rfl, hb1⟩
+        · simp only []
+          exact key s2 hs1 hd1
+        · simp only []
+          exact ⟨_, _, _, rfl, hs1.trans hs0, List.suffix_refl _,
+            .inr ⟨rfl, fun hh => bad_of_suffix hs0 hb1 hh.1, [], List.nil_prefix, by simp⟩⟩
+      · simp only [if_neg ht2] at hI ⊢
+        simp only [pure, Except.pure, Except.ok.injEq, Prod.mk.injEq] at hI
+        obtain ⟨rfl, rfl⟩ := hI
+        exact key s1 (List.suffix_refl _) hd0
+
+-- ---------------------------------------------------------------------------------------------
+-- the chunk loop and the whole call
+
+theorem readChunksIO_spec (o : Oracle) (crc : Bytes → Nat) (F : Nat) : ∀ (G : Nat) (s : Source) (k : Sink)
+    (total : Bytes), readChunks o crc F s.data = .ok total → F ≤ G → IoEv.zero ∉ s.sched →
+    ∃ r s' k', readChunksIO o crc G s k = (r, s', k') ∧ FullPost s s' k k' r () [] total := by
+  induction F with
+  | zero => intro _ _ _ _ h; simp [readChunks] at h
+  | succ F ih =>
+    intro G s k total h hFG hz
+    cases G with
+    | zero => omega
+    | succ G =>
+      unfold readChunks at h
+      obtain ⟨oc, hc, h⟩ := bind_ok h
+      unfold readChunksIO
+      obtain ⟨r1, s1, k1, e1, hs1, hk1, c1⟩ := readChunkIO_spec o crc s k oc hc hz
+      rw [e1]
+      rcases c1 with ⟨rfl, hd1, ho1⟩ | ⟨rfl, hb1, p, hp, ho1⟩
+      · cases oc with
+        | none =>
+          simp only [Except.ok.injEq] at h
+          subst h
+          simp only [ocFlag]
+          exact ⟨_, _, _, rfl, hs1, hk1, .inl ⟨rfl, hd1, ho1⟩⟩
+        | some ob =>
+          obtain ⟨outB, rest⟩ := ob
+          simp only [] at h
+          obtain ⟨tl, htl, h⟩ := bind_ok h
+          simp only [Except.ok.injEq] at h
+          subst h
+          simp only [ocFlag]
+          simp only [ocRest] at hd1
+          simp only [ocOut] at ho1
+          obtain ⟨r, s', k', e, hs, hk, hc⟩ := ih G s1 k1 tl (by rw [hd1]; exact htl) (by omega)
+            (nozero_of_suffix hs1 hz)
+          refine ⟨r, s', k', e, hs.trans hs1, hk.trans hk1, ?_⟩
+          rcases hc with ⟨rfl, hd, ho⟩ | ⟨rfl, hb, p, hp, ho⟩
+          · exact .inl ⟨rfl, hd, by rw [ho, ho1, List.append_assoc]⟩
+          · refine .inr ⟨rfl, ?_, outB ++ p, (List.prefix_append_right_inj _).2 hp, ?_⟩
+            · intro hh
+              exact hb ⟨onlyShort_of_suffix hs1 hh.1, onlyShort_of_suffix hk1 hh.2⟩
+            · rw [ho, ho1, List.append_assoc]
+      · refine ⟨_, _, _, rfl, hs1, hk1, .inr ⟨rfl, hb1, p, ?_, ho1⟩⟩
+        cases oc with
+        | none =>
+          simp only [Except.ok.injEq] at h
+          subst h
+          exact hp
+        | some ob =>
+          obtain ⟨outB, rest⟩ := ob
+          simp only [] at h
+          obtain ⟨tl, htl, h⟩ := bind_ok h
+          simp only [Except.ok.injEq] at h
+          subst h
+          exact hp.trans (List.prefix_append _ _)
+
+theorem recreateIO_spec (o : Oracle) (crc : Bytes → Nat) (c f : Bytes)
+    (hc : recreate o crc c = .ok f) (rs ws : List IoEv) (hrz : IoEv.zero ∉ rs) :
+    ∃ r s' k', recreateIO o crc ⟨c, rs⟩ ⟨[], ws⟩ = (r, s', k') ∧
+      FullPost ⟨c, rs⟩ s' ⟨[], ws⟩ k' r () [] f := by
+  cases c with
+  | nil => simp [recreate] at hc
+  | cons v rest =>
+    simp only [recreate] at hc
+    split at hc
+    · cases hc
+    · rename_i hv
+      unfold recreateIO
+      obtain ⟨r1, s1, e1, hs1, c1⟩ := readExact_spec 1 ⟨v :: rest, rs⟩ (by simp) hrz
+      rw [e1]
+      rcases c1 with ⟨rfl, hd1⟩ | ⟨rfl, hb1⟩
+      · simp only [List.take_succ_cons, List.take_zero, List.drop_succ_cons, List.drop_zero] at hd1 ⊢
+        simp only [if_neg hv]
+        obtain ⟨r, s', k', e, hs, hk, hcs⟩ := readChunksIO_spec o crc (rest.length + 1)
+          (s1.data.length + s1.sched.length + 2) s1 ⟨[], ws⟩ f (by rw [hd1]; exact hc)
+          (by rw [hd1]; omega) (nozero_of_suffix hs1 hrz)
+        refine ⟨r, s', k', e, hs.trans hs1, hk, ?_⟩
+        rcases hcs with h | ⟨rfl, hb, hp⟩
+        · exact .inl h
+        · exact .inr ⟨rfl, fun hh => hb ⟨onlyShort_of_suffix hs1 hh.1, hh.2⟩, hp⟩
+      · exact ⟨_, _, _, rfl, hs1, List.suffix_refl _,
+          .inr ⟨rfl, fun hh => hb1 hh.1, [], List.nil_prefix, by simp⟩⟩
 
 theorem frag_independent (o : Oracle) (crc : Bytes → Nat) (c f : Bytes)
     (hc : recreate o crc c = .ok f) (rs ws : List IoEv) (hr : OnlyShort rs) (hw : OnlyShort ws) :
     ∃ s' k', recreateIO o crc ⟨c, rs⟩ ⟨[], ws⟩ = (.ok (), s', k') ∧ k'.out = f := by
-  sorry
+  obtain ⟨r, s', k', e, _, _, h⟩ := recreateIO_spec o crc c f hc rs ws (onlyShort_nozero hr)
+  rcases h with ⟨rfl, _, ho⟩ | ⟨rfl, hb, _⟩
+  · exact ⟨s', k', e, by simpa using ho⟩
+  · exact absurd ⟨hr, hw⟩ hb
 
 theorem error_clean (o : Oracle) (crc : Bytes → Nat) (c f : Bytes)
     (hc : recreate o crc c = .ok f) (rs ws : List IoEv) (hrz : IoEv.zero ∉ rs) :
@@ -14,6 +327,18 @@ theorem error_clean (o : Oracle) (crc : Bytes → Nat) (c f : Bytes)
     (recreateIO o crc ⟨c, rs⟩ ⟨[], ws⟩).1 ≠ .error .fuel ∧
     (recreateIO o crc ⟨c, rs⟩ ⟨[], ws⟩).2.2.out <+: f ∧
     ((recreateIO o crc ⟨c, rs⟩ ⟨[], ws⟩).1 = .ok () → (recreateIO o crc ⟨c, rs⟩ ⟨[], ws⟩).2.2.out = f) := by
-  sorry
+  obtain ⟨r, s', k', e, _, _, h⟩ := recreateIO_spec o crc c f hc rs ws hrz
+  rw [e]
+  rcases h with ⟨rfl, _, ho⟩ | ⟨rfl, _, p, hp, ho⟩
+  · have ho' : k'.out = f := by simpa using ho
+    refine ⟨fun m hm => (by cases hm), fun hm => (by cases hm), ?_, fun _ => ho'⟩
+    show k'.out <+: f
+    rw [ho']
+    exact List.prefix_refl _
+  · have ho' : k'.out = p := by simpa using ho
+    refine ⟨fun m hm => (by cases hm), fun hm => (by cases hm), ?_, fun hm => (by cases hm)⟩
+    show k'.out <+: f
+    rw [ho']
+    exact hp
 
 end Preflate.Proofs
